@@ -14,11 +14,11 @@ CHECKS = {
  'C01': dict(tech='bounded exhaustive enumeration of operation sequences on the real stack against a map reference model (explicit-state, implementation-level)',
    text='All autocommit histories to depth 4 (quick) / 6 (thorough) over Set/SetReader/Create/Delete on 3 keys plus the empty key, every read (Get, GetReader, GetKeys, never-written key) compared with a map model after every step; all ten boundary content lengths, Create splits, read-size patterns of the source reader and a paced Create on the last write of all histories of depth <= 3; the length/split alphabet also through the gRPC client (depth 1 / 3); 41 unusual valid-UTF-8 keys (separators, control characters, NUL, record prefixes, long keys) in histories with reopenings; a created file kept open across other operations and collection passes (the write takes effect at Close); the same histories to depth 3 / 4 replayed on the real Badger engine.', note=seq_note, ref='C01'),
  'C02': dict(tech='bounded exhaustive enumeration of sequential transaction interleavings on the real stack against the isolation reference model',
-   text='All sequential interleavings to the stated depth of autocommit writes, Begin at the four levels, writes, Commit, Rollback in 2-3 transaction slots and GC at any position; after every step every open transaction and the autocommit handle read every key and the key list, compared with the model of C02.', note=seq_note, ref='C02'),
+   text='All sequential interleavings to the stated depth of autocommit writes, Begin at the four levels, writes, Commit, Rollback in 2-3 transaction slots and GC at any position (one plan with SetReader and Create inside transactions); after every step every open transaction and the autocommit handle read every key and the key list, compared with the model of C02.', note=seq_note, ref='C02'),
  'C03': dict(tech='bounded exhaustive enumeration of commit-centred histories on the real stack against the reference model',
    text='All interleavings to the stated depth of transactions with overlapping write sets (several writes per key) and autocommit writes; the error class of every Commit/Rollback and the autocommit view after every step must equal the model: all-or-nothing publication, ErrTxSerialization iff snapshot level and a written key was committed after begin.', note=seq_note, ref='C03'),
  'C05': dict(tech='exhaustive enumeration of the configuration product (process lifetimes x open orders x write patterns) on the real stack against per-database map models',
-   text='The full product of 2-3 process lifetimes, five open orders of two databases in one process, write patterns, abandoned transactions and mid-life reopen; every database read after every open and write and in a final process; plus every sequential interleaving of transactions and autocommit writes to depth 5 (6) followed by Close, a new process, Open and a full read, twice.', note=seq_note + ' A process boundary is emulated by a clean Close plus re-initialisation of all package-level variables.', ref='C05'),
+   text='The full product of 2-3 process lifetimes, five open orders of two databases in one process, write patterns, abandoned transactions and mid-life reopen; every database read after every open and write and in a final process; plus every sequential interleaving of transactions and autocommit writes to depth 5 (6) followed by Close, a new process, Open and a full read, twice; and five concurrent client programs at 2 (3) deviations whose final reads must be the same before Close and after a new process has opened the database.', note=seq_note + ' A process boundary is emulated by a clean Close plus re-initialisation of all package-level variables.', ref='C05'),
  'C06': dict(tech='stateless model checking of the implementation: deviation-bounded exhaustive schedule exploration with a linearizability oracle',
    text='Every schedule with at most 2 (quick) / 3 (thorough, capped at 4 M executions per program) deviations of eleven client programs (autocommit, RU/RC transactions, GC actor, shared keys) over inline.Open..Close, the same programs with the writer preference of sync.RWMutex modelled at one deviation less, three programs with a scheduling point after every Unlock as well (release points), and every pair of client threads over an 11-item alphabet (56 generated programs at 1 deviation quick; two initial states, GC actor, 2 deviations and two-against-one items thorough) and every triple over a 5-item alphabet (34 programs, 1 / 2 deviations); each recorded call/return history must be linearizable w.r.t. the sequential model; no deadlock, panic or leaked thread.', note=conc_note, ref='C06'),
  'C07': dict(tech='stateless model checking of the implementation: deviation-bounded exhaustive schedule exploration of concurrent commits with a linearizability oracle',
